@@ -22,6 +22,7 @@ inductive Opt where
   | errexit
   | pipefail
   | inheritErrexit
+  | lastpipe          -- `shopt -s lastpipe` (effective because job control is off in non-interactive shells)
   deriving DecidableEq, Repr
 
 /-- simple commands that fail part-way: each takes a different exit from `execute_command` /
@@ -99,6 +100,7 @@ structure St where
   errexit : Bool := false
   pipefail : Bool := false
   inheritErrexit : Bool := false
+  lastpipe : Bool := false
   deriving Repr, DecidableEq
 
 structure Res where
@@ -162,6 +164,7 @@ def St.setOpt (s : St) : Opt → Bool → St
   | .errexit, on => { s with errexit := on }
   | .pipefail, on => { s with pipefail := on }
   | .inheritErrexit, on => { s with inheritErrexit := on }
+  | .lastpipe, on => { s with lastpipe := on }
 
 /-- `wait_for_pipeline_processes_and_update_status`: the last stage's status, or with pipefail the
 rightmost non-zero one -/
@@ -292,12 +295,16 @@ def exec : Nat → List Cmd → Bool → Cmd → St → Out
       | none => none
       | some (s1, r1) => some (post sup s1 r1)
     | .pipe codes lastc =>
-      -- every stage runs in its own clone; only output and statuses come back
       match exec fuel fs sup lastc s with
       | none => none
       | some (s1, r1) =>
-        some (post sup { s with trace := s1.trace }
-          { code := pipeStatus s.pipefail (codes ++ [r1.code]), flow := .normal })
+        if s.lastpipe then
+          -- the last stage ran in the current shell: its state changes and its control flow stay
+          some (post sup s1 { code := pipeStatus s.pipefail (codes ++ [r1.code]), flow := r1.flow })
+        else
+          -- every stage runs in its own clone; only output and statuses come back
+          some (post sup { s with trace := s1.trace }
+            { code := pipeStatus s.pipefail (codes ++ [r1.code]), flow := .normal })
 
 /-- `CompoundList::execute` -/
 def execList : Nat → List Cmd → Bool → Cmds → St → Out
